@@ -2861,13 +2861,32 @@ class WBEMConnection:  # pylint: disable=too-many-instance-attributes
                                                  namespace)
         return (rtn_objects, end_of_sequence, rtn_ctxt)
 
+    def _get_returned_items(self, result):
+        """
+        Return the objects from the children of IRETURNVALUE that are
+        represented as tuple(name, attrs, object) by the CIM-XML parser
+        (i.e. the VALUE.OBJECT*, OBJECTPATH elements), validating that
+        they have that form.
+        """
+        objects = []
+        if result is not None:
+            for item in result[0][2]:
+                if not isinstance(item, tuple) or len(item) != 3:
+                    raise CIMXMLParseError(
+                        _format("Expecting an object with path in result "
+                                "list, got {0} object",
+                                item.__class__.__name__),
+                        conn_id=self.conn_id)
+                objects.append(item[2])
+        return objects
+
     def _get_returned_objects(self, result, ObjectName):
         """
         Support for Associators, References operations
         Get returned objects and validate that the types correspond to the types
         for Associators and References
         """
-        objects = [] if result is None else [x[2] for x in result[0][2]]
+        objects = self._get_returned_items(result)
 
         if isinstance(ObjectName, CIMInstanceName):
             # instance-level invocation
@@ -2880,7 +2899,14 @@ class WBEMConnection:  # pylint: disable=too-many-instance-attributes
                         conn_id=self.conn_id)
         else:
             # class-level invocation
-            for classpath, klass in objects:
+            for obj in objects:
+                if not isinstance(obj, tuple) or len(obj) != 2:
+                    raise CIMXMLParseError(
+                        _format("Expecting tuple (CIMClassName, CIMClass) "
+                                "in result list, got {0} object",
+                                obj.__class__.__name__),
+                        conn_id=self.conn_id)
+                classpath, klass = obj
                 if not isinstance(classpath, CIMClassName) or \
                         not isinstance(klass, CIMClass):
                     raise CIMXMLParseError(
@@ -2899,7 +2925,7 @@ class WBEMConnection:  # pylint: disable=too-many-instance-attributes
         CIMInstanceName if the request was CIMInstanceName or
         CIMClassName if the request was CIMClassName
         """
-        objects = [] if result is None else [x[2] for x in result[0][2]]
+        objects = self._get_returned_items(result)
 
         if isinstance(ObjectName, CIMInstanceName):
             # instance-level invocation
@@ -3099,6 +3125,12 @@ class WBEMConnection:  # pylint: disable=too-many-instance-attributes
                     raise CIMXMLParseError(
                         _format("Expecting CIMInstance object in result list, "
                                 "got {0} object", instance.__class__.__name__),
+                        conn_id=self.conn_id)
+
+                if instance.path is None:
+                    raise CIMXMLParseError(
+                        "Expecting instances with path in result list, "
+                        "got an instance without path",
                         conn_id=self.conn_id)
 
                 # The EnumerateInstances CIM-XML operation returns instances as
@@ -4687,12 +4719,16 @@ class WBEMConnection:  # pylint: disable=too-many-instance-attributes
                 QueryLanguage=QueryLanguage,
                 Query=Query)
 
-            if result is None:
-                instances = []
-            else:
-                instances = [x[2] for x in result[0][2]]
+            instances = self._get_returned_items(result)
 
             for instance in instances:
+
+                if not isinstance(instance, CIMInstance):
+                    raise CIMXMLParseError(
+                        _format("Expecting CIMInstance object in result "
+                                "list, got {0} object",
+                                instance.__class__.__name__),
+                        conn_id=self.conn_id)
 
                 # The ExecQuery CIM-XML operation returns instances as any of
                 # (VALUE.OBJECT | VALUE.OBJECTWITHLOCALPATH |
